@@ -14,6 +14,7 @@ package types
 
 // C07: interval formula.
 //@ func CalculateInterval
+//@ pure
 //@ requires powerStep > 0 && minInterval > 0 && maxInterval > 0
 //@ ensures  power <  powerStep ==> interval == 0
 //@ ensures  power >= powerStep ==> interval == max(maxInterval / (power / powerStep), minInterval)
